@@ -403,6 +403,31 @@ func ruleS4(c *an.Ctx) {
 		c.Check("S4", "cache-loaded-before-lock-test@(*Pipestance).Lock", in.Pos(), ok3, "the directory must be (re)read before testing for an existing lock; "+c.WitnessString(w3))
 	})
 	c.Floor("S4", "writes of the lock file in Pipestance.Lock", n, 1)
+	// only the owner of the lock may be registered as a signal handler: HandleSignal removes the lock
+	// file unconditionally, so a pipestance that was refused (lock held by a live mrp) must not be
+	// registered - its process would delete the other mrp's lock when it exits.
+	nReg := 0
+	for _, fn := range coreFns(c) {
+		an.Instrs(fn, func(in ssa.Instruction) {
+			call, ok := an.IsPkgFuncCall(in, utilPath, "RegisterSignalHandler")
+			if !ok || len(call.Common().Args) != 1 {
+				return
+			}
+			mi, ok := call.Common().Args[0].(*ssa.MakeInterface)
+			if !ok || !strings.HasSuffix(mi.X.Type().String(), "core.Pipestance") {
+				return
+			}
+			nReg++
+			if fn != lock {
+				c.Fail("S4", "handler-registered-only-by-lock-owner@"+an.FnName(fn), in.Pos(), "a Pipestance is registered as a signal handler outside Pipestance.Lock: its HandleSignal removes the lock file whether or not this process holds it")
+				return
+			}
+			g, w := an.GuardedBy(in, func(r an.Rel) bool { return r.Op == token.ILLEGAL && !r.Truth && existsCallOf(p, r.X, "Lock") })
+			c.Check("S4", "handler-registered-only-by-lock-owner@(*Pipestance).Lock", in.Pos(), g,
+				"the pipestance may be registered as a signal handler only on the edge where the lock file did not exist: HandleSignal removes the lock unconditionally, so a refused mrp would delete the live mrp's lock on exit and a third mrp could then attach for writing; "+c.WitnessString(w))
+		})
+	}
+	c.Floor("S4", "registrations of a Pipestance as signal handler", nReg, 1)
 	// the lock file is written nowhere else
 	for _, fn := range coreFns(c) {
 		if fn == lock {
